@@ -43,7 +43,9 @@ func ifFacts(i *ssa.If) Fact {
 				}
 				if c, ok := r.(*ssa.Const); ok {
 					if c.Value == nil && !isBasic(c.Type()) {
-						return Fact{V: l, Kind: "nil", Holds: holds == eq}
+						// (a named result that a deferred function also reads lives in memory: `if err = f(); err != nil`
+						// stores and reloads it — the test is about what was just stored)
+						return Fact{V: blockLocalValue(l), Kind: "nil", Holds: holds == eq}
 					}
 					if b, ok := c.Type().Underlying().(*types.Basic); ok && b.Info()&types.IsBoolean != 0 && c.Value != nil {
 						bv := c.Value.String() == "true"
@@ -225,6 +227,9 @@ func feasibleSuccs(blk *ssa.BasicBlock, st nilState, refineAll bool) []psItem {
 			x = b.Y
 		}
 		if x != nil {
+			// (a variable reloaded right after it was stored — a named result that a deferred function shares —
+			// is what was stored)
+			x = blockLocalValue(x)
 			isNilOnTrue := (b.Op == token.EQL) != neg
 			switch st.of(x) {
 			case 1:
@@ -674,6 +679,9 @@ func (s nilState) of(v ssa.Value) int8 {
 					return 2
 				}
 			}
+		}
+		if globalNeverNil(v) {
+			return 2
 		}
 		switch x := v.(type) {
 		case *ssa.ChangeInterface:
